@@ -8,7 +8,9 @@ ID = "C12"
 GEN = []
 RULE = ("validator sets of size 0..100 with weights incl. 0 and 2^64-1; signature lists mixing valid, invalid, "
         "foreign-signer and duplicated entries in random order; totals generated at the 2/3 boundary (exactly 2/3, "
-        "one unit below, one unit above); real Ed25519 keys; non-trivial = at least one signature; distinct by case")
+        "one unit below, one unit above); real Ed25519 keys (oracle verifies with PyNaCl directly); 30% of the sets are "
+        "read from a hand-encoded ValidatorSet cell by the library's TL-B parser; accepted sets re-submitted for another "
+        "block afterwards; non-trivial = at least one signature; distinct by case")
 TRUSTED = [
     "Coq 8.16.1 kernel; no native_compute",
     "Model/Signatures.v: transcription of check_block_signatures and the declarative acceptance predicate s_accept",
@@ -87,13 +89,37 @@ def gen_case(rng):
         sigs[i] = (sigs[i][0], keys(n)[0][0].sign(b"other message").signature if n else sigs[i][1])
     rng.shuffle(sigs)
     return {"pks": [ks[i][1].hex() for i in range(n)], "ws": ws, "sigs": [(a.hex(), b.hex()) for a, b in sigs],
-            "root": root.hex(), "file": file.hex()}
+            "root": root.hex(), "file": file.hex(), "via_tlb": 0 < n <= 30 and rng.random() < 0.3}
+
+
+def tlb_nodes(c):
+    """the validator set as the library reads it from a config cell: validators_ext#12 / validators#11 written out by
+    hand (validator#53 public_key:SigPubKey weight:uint64; ed25519_pubkey#8e81278a pubkey:bits256), parsed by
+    ValidatorSet.deserialize"""
+    import random
+    import cells
+    import hm
+    from pytoniq_core.tlb.config import ValidatorSet
+    n = len(c["pks"])
+    dag = []
+    keys = [format(i, "016b") for i in range(n)]
+    vals = {k: ("01010011" + format(0x8e81278a, "032b") + format(int(pk, 16), "0256b") + format(w, "064b"), [])
+            for k, pk, w in zip(keys, c["pks"], c["ws"])}
+    hm.build_any_tree(random.Random(1), keys, vals, 16, dag, canonical=True)
+    head = format(0x12, "08b") + format(1, "032b") + format(2, "032b") + format(n, "016b") + format(max(1, n // 2), "016b")
+    head += format(sum(c["ws"]) & (2 ** 64 - 1), "064b") + "1"
+    dag.append((-1, head, [len(dag) - 1]))
+    vs = ValidatorSet.deserialize(cells.build_py(dag)[-1].begin_parse())
+    return [vs.list[i] for i in range(n)]
 
 
 def py_check(c):
     from pytoniq_core.proof.check_proof import check_block_signatures
-    nodes = [SimpleNamespace(public_key=SimpleNamespace(pubkey=bytes.fromhex(pk)), weight=w)
-             for pk, w in zip(c["pks"], c["ws"])]
+    if c.get("via_tlb") and c["pks"]:
+        nodes = tlb_nodes(c)
+    else:
+        nodes = [SimpleNamespace(public_key=SimpleNamespace(pubkey=bytes.fromhex(pk)), weight=w)
+                 for pk, w in zip(c["pks"], c["ws"])]
     blk = SimpleNamespace(root_hash=bytes.fromhex(c["root"]), file_hash=bytes.fromhex(c["file"]))
     sigs = [{"node_id_short": a, "signature": bytes.fromhex(b)} for a, b in c["sigs"]]
     check_block_signatures(nodes, sigs, blk)
@@ -102,14 +128,20 @@ def py_check(c):
 
 def valid_pairs(c):
     """(pk, sig) pairs that the real Ed25519 verifier accepts for this block, over all validators x signatures"""
-    from pytoniq_core.crypto.signature import verify_sign
+    from nacl.signing import VerifyKey
+    from nacl.exceptions import BadSignatureError
     msg = b"pn\x0b\xc5" + bytes.fromhex(c["root"]) + bytes.fromhex(c["file"])
     out = []
     ids = {hashlib.sha256(b"\xc6\xb4\x13H" + bytes.fromhex(pk)).hexdigest(): pk for pk in c["pks"]}
     for a, b in c["sigs"]:
         pk = ids.get(a)
-        if pk is not None and verify_sign(bytes.fromhex(pk), msg, bytes.fromhex(b)):
+        if pk is None:
+            continue
+        try:
+            VerifyKey(bytes.fromhex(pk)).verify(msg, bytes.fromhex(b))     # PyNaCl directly, not the library's wrapper
             out.append((pk, b))
+        except (BadSignatureError, ValueError):
+            pass
     return out
 
 
@@ -148,12 +180,34 @@ def run(ctx):
             ctx.fail("insufficient-signature-set-accepted", why(c), c)
     ctx.extra["accepting_cases"] = acc
     ctx.extra["rejecting_cases"] = len(cases) - acc
+    ctx.extra["validator_sets_read_from_tlb"] = sum(1 for c in cases if c.get("via_tlb"))
+    # history: a signature set accepted for block A must not be accepted for another block B afterwards
+    nrep = 0
+    for c, a in zip(cases, impl):
+        if a != "ok" or nrep >= ctx.n(60, 600):
+            continue
+        nrep += 1
+        other = dict(c, root=hashlib.sha256(bytes.fromhex(c["root"])).hexdigest(), file=c["file"])
+        r = core.call_impl(lambda _: replay_pair(c, other), None)
+        if r != "ok":
+            ctx.fail("signatures-replayed-for-another-block", r, {"first": c, "then": other})
+    ctx.extra["replay_histories"] = nrep
     # node id and payload constants
     pk = bytes(range(32))
     m = core.run_driver([f"nodeid {pk.hex()}"])[0]
     from pytoniq_core.proof.check_proof import calculate_node_id_short
     if calculate_node_id_short(pk).hex() != m:
         ctx.broken.append("node id model differs")
+
+
+def replay_pair(c, other):
+    if py_check(c) != "ok":
+        return "ok"
+    try:
+        py_check(other)
+    except Exception:
+        return "ok"
+    return "signatures over block A were accepted for block B after block A had been checked"
 
 
 def why(c):
@@ -167,6 +221,9 @@ def why(c):
 
 def replay(ctx, obj):
     c = obj["case"]
+    if "first" in c:
+        r = core.call_impl(lambda _: replay_pair(c["first"], c["then"]), None)
+        return None if r == "ok" else r
     a = core.call_impl(py_check, c)
     want = spec_accept(c)
     if want and a != "ok":
